@@ -222,6 +222,13 @@ impl Case {
             );
         }
         if pkt.len() != 258 || pkt[..2] != T_REG1.to_be_bytes() || pkt[2..] != self.cur_id {
+            // C15: every frame the sender builds decodes back to the values it was built from (here: the
+            // currently adopted id, bytes 2..258 of a 258-byte REG1)
+            mon.fail(
+                "C15",
+                "built-frame-does-not-decode-back",
+                format!("{path}: REG1 to uplink {target} decodes to id {} but the manager's current id is {}", id_tag(&pkt[2.min(pkt.len())..]), id_tag(&self.cur_id)),
+            );
             mon.fail(
                 P,
                 "stale-id-emitted",
@@ -254,6 +261,11 @@ impl Case {
     /// A registration REG2 (reconnect re-send or broadcast) left the manager.
     fn on_reg2_emit(&mut self, pkt: &[u8], mon: &mut Mon, path: &str) {
         if pkt.len() != 258 || pkt[..2] != T_REG2.to_be_bytes() || pkt[2..] != self.cur_id {
+            mon.fail(
+                "C15",
+                "built-frame-does-not-decode-back",
+                format!("{path}: REG2 decodes to id {} but the manager's current id is {}", id_tag(&pkt[2.min(pkt.len())..]), id_tag(&self.cur_id)),
+            );
             mon.fail(
                 P,
                 "stale-id-emitted",
